@@ -20,6 +20,11 @@ def rows():
                 b = (x.get("buckets") or ["?"])[0].split(" ")[0].replace("bucket=", "")
                 caught.append(f"{p}: `{b}`")
         cell = "; ".join(caught) or ("- (see note in meta.json)" if m.get("note") or m.get("not_detected_note") else "-")
+        if m.get("final_tree_note"):
+            if not caught:
+                cell = "- (no longer breaks the property on the final tree, see final_tree_note in meta.json)"
+            elif not m.get("verification", {}).get("confirmed", True):
+                cell += " (demonstration predates a later repair, see final_tree_note in meta.json)"
         clean = lambda t: re.sub(r"\s+", " ", str(t)).replace("|", "/")
         out.append(f"| {os.path.basename(d)} | {clean(m.get('summary', ''))[:170]} | {clean(m.get('needs_to_manifest', ''))[:150]} | {cell} |\n")
     return out
